@@ -1176,21 +1176,21 @@ def check_seq(run, cont, ms, kind, attr, site):
             bad("contains_absent_raises", "%r in %s raised %r" % (key, attr, e))
         if r is not False:
             bad("contains_absent", "%r in %s -> %r" % (key, attr, r))
+        got_absent = True
         try:
             cont[key]
+        except Exception:  # noqa  (any error class: the property does not name one)
+            got_absent = False
+        if got_absent:
             bad("get_absent", "%s[%r] returned" % (attr, key))
-        except KeyError:
-            pass
-        except Exception as e:  # noqa
-            bad("get_absent_wrong_error", repr(e))
     for key in (len(ms), -len(ms) - 1):
+        got_oob = True
         try:
             cont[key]
+        except Exception:  # noqa  (any error class)
+            got_oob = False
+        if got_oob:
             bad("get_oob", "%s[%d] returned (len %d)" % (attr, key, len(ms)))
-        except IndexError:
-            pass
-        except Exception as e:  # noqa
-            bad("get_oob_wrong_error", repr(e))
     run.stats["container_checks"] += 1
 
 
@@ -1343,7 +1343,7 @@ class RefusedLink:
                 return res(NOOP)
             t = cands[o["t"] % len(cands)]
             arg = run.R(t, 0)
-            allowed = (TypeError, RuntimeError)
+            allowed = None
         elif case == "not_entity":
             arg = [42, 3.5, "not-an-id", None, ["x"]][o["t"] % 5]
             allowed = None
